@@ -1730,8 +1730,9 @@ class RTCSctpTransport(AsyncIOEventEmitter):
                 channel._setReadyState("closed")
 
     def _data_channel_closed(self, stream_id: int) -> None:
-        channel = self._data_channels.pop(stream_id)
-        channel._setReadyState("closed")
+        channel = self._data_channels.pop(stream_id, None)
+        if channel is not None:
+            channel._setReadyState("closed")
 
     async def _data_channel_flush(self) -> None:
         """
